@@ -47,7 +47,14 @@ func (Prop) Plan(tier string) []lib.Workload {
 	if tier == "thorough" {
 		n = 20000
 	}
-	return []lib.Workload{{Name: "schedules", Cases: n, MinNontrivial: n / 3, CaseTimeout: 10 * time.Minute}}
+	wl := lib.Workload{Name: "schedules", Cases: n, MinNontrivial: n / 3, CaseTimeout: 10 * time.Minute}
+	if tier == "thorough" {
+		// many short batches: a child that dies costs little, and no batch comes
+		// near the batch watchdog even on a loaded machine
+		wl.Batches = 160
+		wl.BatchTimeout = 90 * time.Minute
+	}
+	return []lib.Workload{wl}
 }
 
 // ---------------------------------------------------------------- logging
@@ -118,12 +125,13 @@ func (Prop) RunCase(c *lib.Case) {
 	c.Eval(1)
 	steps := 15 + c.Rng.Intn(26)
 	var kinds []string
-	broken := ""
+	broken, brokenKey := "", ""
 	for i := 0; i < steps; i++ {
 		w.step = i + 1
 		kind, err := w.nextStep()
 		if err != nil {
 			broken = fmt.Sprintf("step %d (%s): %v", i+1, kind, err)
+			brokenKey = kind + ":" + errClass(err)
 			break
 		}
 		kinds = append(kinds, kind)
@@ -160,7 +168,7 @@ func (Prop) RunCase(c *lib.Case) {
 	if broken != "" {
 		// a step of the rig itself failed (node could not restart, ...): that is
 		// either a harness problem or a defect outside what the monitor keys
-		c.Violation("rig-step-failed:"+firstWord(broken), "a rig step failed: "+broken, map[string]any{"events": tail(w.events, 60)})
+		c.Violation("rig-step-failed:"+brokenKey, "a rig step failed: "+broken, map[string]any{"events": tail(w.events, 60)})
 	}
 	for _, p := range w.mon.problems {
 		p.Detail["events"] = tail(w.events, 80)
@@ -178,17 +186,6 @@ func (Prop) RunCase(c *lib.Case) {
 			fmt.Println("    " + e)
 		}
 	}
-}
-
-func firstWord(s string) string {
-	if i := strings.Index(s, ":"); i > 0 {
-		s = s[i+1:]
-	}
-	s = strings.TrimSpace(s)
-	if len(s) > 40 {
-		s = s[:40]
-	}
-	return s
 }
 
 func tail(xs []string, n int) []string {
